@@ -171,7 +171,14 @@ VUn(ev) ==
 VCert(ev) == Ok({ev[4][i] : i \in DOMAIN ev[4]} = LocsGK(ev[2], ev[3]) /\ Len(ev[4]) = Cardinality(LocsGK(ev[2], ev[3])),
                 "input-space-complete")
 (* ["certpairs", nLocs, nPairEvents] : the pair shard set covers the full square *)
-Verdict(ev) == CASE ev[1] = "pair" -> VPair(ev) [] ev[1] = "un" -> VUn(ev) [] ev[1] = "empty" -> VEmpty(ev)
+(* a single binary call recorded passively from the repository's own tests:
+   ["bin1", name, a, b, pa, pb, k, outcome] *)
+VBin1(ev) ==
+  LET a == ev[3] b == ev[4] pa == ev[5] pb == ev[6] en == <<ev[7], ev[8]>> IN
+  CASE ev[2] = "overlap" -> VOverlap(a, b, pa, pb, en) [] ev[2] = "intersection" -> VIntersect(a, b, pa, pb, en)
+    [] ev[2] = "minus" -> VMinus(a, b, pa, pb, en) [] ev[2] = "contains" -> VContains(a, b, pa, pb, en)
+    [] ev[2] = "union" -> VUnion(a, b, pa, pb, ev[8]) [] OTHER -> "unknown-binary-op"
+Verdict(ev) == CASE ev[1] = "bin1" -> VBin1(ev) [] ev[1] = "pair" -> VPair(ev) [] ev[1] = "un" -> VUn(ev) [] ev[1] = "empty" -> VEmpty(ev)
                  [] ev[1] = "cert" -> VCert(ev) [] OTHER -> "unknown-op"
 Bad == {i \in DOMAIN Trace : Verdict(Trace[i]) # "ok"}
 ASSUME \A i \in Bad : PrintT(<<"BAD", i, Verdict(Trace[i])>>)
